@@ -626,6 +626,10 @@ class SymEval:
             return a - b
         if isinstance(op, ast.Mult) and isinstance(a, TS) and isinstance(b, int):
             return TS(a.t * b)
+        if isinstance(op, ast.Mult) and isinstance(a, list) and isinstance(b, int) and not isinstance(b, bool):
+            return list(a) * max(b, 0)
+        if isinstance(op, ast.Mult) and isinstance(b, list) and isinstance(a, int) and not isinstance(a, bool):
+            return list(b) * max(a, 0)
         raise Undetermined(f"binary op {type(op).__name__} on {type(a).__name__}, {type(b).__name__}")
 
     def compare(self, op, l, r):
